@@ -106,31 +106,32 @@ def install_parse_memo():
 # ---------------------------------------------------------------------------------------------
 def choose_ledgers(count, seed, n=4):
     """Deterministic choice: template sets ordered by richness (most features first), round robin over
-    the bookable orderings of each set; the seed rotates which ordering of a set comes first."""
+    the bookable orderings of each set (longest first); the seed rotates which ordering of a set comes
+    first.  Bookability is tested lazily (only for the candidates reached)."""
     groups = collections.OrderedDict()
     for seq in L.sequences(n):
-        if not seq or L.load(seq, seed)[1]:
-            continue
-        groups.setdefault(frozenset(seq), []).append(seq)
+        if seq:
+            groups.setdefault(frozenset(seq), []).append(seq)
     order = sorted(groups, key=lambda s: (-sum(L.FEATURE[t] for t in s), -len(s), sorted(s)))
+    iters = {}
     for s in order:
-        g = groups[s]
-        g.sort(key=lambda q: (-len(q), q))
+        g = sorted(groups[s], key=lambda q: (-len(q), q))
         k = seed % len(g)
-        groups[s] = g[k:] + g[:k]
-    chosen, rnd = [], 0
-    while len(chosen) < count:
-        progressed = False
-        for s in order:
-            if rnd < len(groups[s]):
-                chosen.append(groups[s][rnd])
-                progressed = True
-                if len(chosen) == count:
+        iters[s] = iter(g[k:] + g[:k])
+    chosen, skipped = [], 0
+    live = list(order)
+    while len(chosen) < count and live:
+        for s in list(live):
+            for seq in iters[s]:
+                if not L.load(seq, seed)[1]:
+                    chosen.append(seq)
                     break
-        if not progressed:
-            break
-        rnd += 1
-    return chosen, sum(len(g) for g in groups.values())
+                skipped += 1
+            else:
+                live.remove(s)
+            if len(chosen) == count:
+                break
+    return chosen, sum(len(g) for g in groups.values()), skipped
 
 
 class Ledger:
@@ -539,7 +540,7 @@ def minimise(violations):
 def run(ctx):
     install_parse_memo()
     count = ctx.pick(20, 300)
-    seqs, pool = choose_ledgers(count, ctx.seed)
+    seqs, pool, unbookable = choose_ledgers(count, ctx.seed)
     acc = run_shards(shard, ctx.jobs, seqs, ctx.seed)
     c = acc.n
     ndates = sorted({len(Ledger(s, ctx.seed).dates) for s in seqs[:50]})
@@ -553,9 +554,10 @@ def run(ctx):
                 'one distinct by construction; non-trivial = clause-only cases whose period contains at least one original transaction '
                 'plus filter cases where the filter keeps some but not all rows of the clause-only result (both counted)',
         'exhaustive': True,
-        'bound': f'{len(seqs)} ledgers (of {pool} bookable non-empty members, n <= 4) x all clause configurations over every entry date, '
+        'bound': f'{len(seqs)} ledgers (of {pool} non-empty candidate sequences, n <= 4; {unbookable} unbookable candidates skipped while choosing) x all clause configurations over every entry date, '
                  f'the day after, before and after the span ({ndates} dates per ledger) x {len(FILTERS)} filters x {len(KINDS)} kinds; plus all d > e',
         'ledgers': len(seqs),
+        'ledgers_skipped_unbookable_while_choosing': unbookable,
         'clause_configurations': c['configurations'],
         'distinct_clause_shapes': len(acc.sets['clause_shapes']),
         'statements_executed': c['executed'],
